@@ -136,6 +136,13 @@ def gen_obj_case(rng, npairs, nunpack):
           ("o.items", "[" + ", ".join('["%s", %s]' % (k, m.get(k)) for k in m.public()) + "]"),
           ("o.keys(private?: true)", "[" + ", ".join('"%s"' % k for k in m.public() + m.private()) + "]"),
           ("o.values(private?: true)", "[" + ", ".join(str(m.get(k)) for k in m.public() + m.private()) + "]"),
+          ("o.items(private?: true)", "[" + ", ".join('["%s", %s]' % (k, m.get(k)) for k in m.public() + m.private()) + "]"),
+          # "hidden unless private?: true": any other value of the keyword hides them
+          ("[o.keys(private?: false), o.values(private?: nil), o.items(private?: 1), o.keys(private?: 'true)]",
+           "[" + ", ".join(["[" + ", ".join('"%s"' % k for k in m.public()) + "]",
+                            "[" + ", ".join(str(m.get(k)) for k in m.public()) + "]",
+                            "[" + ", ".join('["%s", %s]' % (k, m.get(k)) for k in m.public()) + "]",
+                            "[" + ", ".join('"%s"' % k for k in m.public()) + "]"]) + "]"),
           ("o=@{|k, v| [k, v]}", "[" + ", ".join('["%s", %s]' % (k, m.get(k)) for k in m.public()) + "]"),
           ("o.keys.len", str(len(m.public()))),
           ("[%s]" % ", ".join("o['%s]" % k for k in OBJ_NAMES if "?" not in k),
@@ -185,6 +192,80 @@ def gen_map_case(rng, npairs, nunpack):
     return "m := " + text, qs
 
 
+def dup_map_case(shape, k, k2):
+    """the same key (and a second one) given by the literal and by one, two or three `**` items"""
+    m = MapModel()
+    parts = []
+    n = 0
+    for kind in shape:
+        n += 1
+        if kind == "L":
+            parts.append("%s: %d" % (src(k), n))
+            m.add(k, n)
+        elif kind == "M":
+            parts.append("**%%{%s: %d, %s: %d}" % (src(k), n, src(k2), n + 10))
+            um = MapModel()
+            um.add(k, n)
+            um.add(k2, n + 10)
+            for kk, vv in um.pairs():
+                m.add(kk, vv)
+        else:
+            parts.append("**%%{%s: %d}" % (src(k2), n + 20))
+            m.add(k2, n + 20)
+    text = "%{" + ", ".join(parts) + "}"
+    ps = m.pairs()
+    qs = [("[m, m.len, m.keys, m.values, m.items, m=@{|k, v| [k, v]}, m[%s], m[%s]]" % (src(k), src(k2)),
+           "[" + ", ".join([m.inspect(), str(len(ps)), "[" + ", ".join(insp(kk) for kk, _ in ps) + "]",
+                            "[" + ", ".join(insp(v) for _, v in ps) + "]",
+                            "[" + ", ".join("[%s, %s]" % (insp(kk), insp(v)) for kk, v in ps) + "]",
+                            "[" + ", ".join("[%s, %s]" % (insp(kk), insp(v)) for kk, v in ps) + "]",
+                            insp(m.get(k)), insp(m.get(k2))]) + "]")]
+    return "m := " + text, qs
+
+
+def dup_obj_case(shape, k, k2):
+    m = ObjModel()
+    parts = []
+    n = 0
+    lit = lambda name: ("'" + name) if "?" in name else name
+    for kind in shape:
+        n += 1
+        if kind == "L":
+            parts.append("%s: %d" % (lit(k), n))
+            m.add(k, n)
+        elif kind == "M":
+            parts.append("**{%s: %d, %s: %d}" % (lit(k), n, lit(k2), n + 10))
+            m.add(k, n)
+            m.add(k2, n + 10)
+        else:
+            parts.append("**{%s: %d}" % (lit(k2), n + 20))
+            m.add(k2, n + 20)
+    text = "{" + ", ".join(parts) + "}"
+    allk = m.public() + m.private()
+    qs = [("[o, o.keys, o.values, o.keys(private?: true), o.values(private?: true), o=@{|k, v| [k, v]}]",
+           "[" + ", ".join([m.inspect(), "[" + ", ".join('"%s"' % x for x in m.public()) + "]",
+                            "[" + ", ".join(str(m.get(x)) for x in m.public()) + "]",
+                            "[" + ", ".join('"%s"' % x for x in allk) + "]",
+                            "[" + ", ".join(str(m.get(x)) for x in allk) + "]",
+                            "[" + ", ".join('["%s", %s]' % (x, m.get(x)) for x in m.public()) + "]"]) + "]")]
+    return "o := " + text, qs
+
+
+# the source object / map of a `**` must be left as it was, and can be unpacked again
+ALIAS_CASES = [
+    ("a := {x: 1}\nb := {y: 2}\nc := {**a, **b}\nd := {**a, **{z: 3, y: 9}}\n", "[a, a.keys, a['y], b, c, d]",
+     '[{"x": 1}, ["x"], nil, {"y": 2}, {"x": 1, "y": 2}, {"x": 1, "y": 9, "z": 3}]'),
+    ("a := {x: 1}\nc := {**a, **{y: 2}, **{w: 0}}\n", "[a, a.keys, a.values, a['y], a['w], c]",
+     '[{"x": 1}, ["x"], [1], nil, nil, {"w": 0, "x": 1, "y": 2}]'),
+    ("a := %{1: 'p}\nb := %{2: 'q}\nc := %{**a, **b}\nd := %{**a, **%{3: 'r, 2: 's}}\n", "[a, a.keys, a[2], b, c, d]",
+     '[%{1: "p"}, [1], nil, %{2: "q"}, %{1: "p", 2: "q"}, %{1: "p", 2: "s", 3: "r"}]'),
+    ("a := %{[1]: 'p}\nb := %{[2]: 'q}\nc := %{**a, **b}\n", "[a, a.len, b, c, c.len]",
+     '[%{[1]: "p"}, 1, %{[2]: "q"}, %{[1]: "p", [2]: "q"}, 2]'),
+    ("a := {x: 1, _h: 2}\nc := {_h: 5, **a, **a}\n", "[a, c, c.keys, c.values(private?: true)]",
+     '[{"_h": 2, "x": 1}, {"_h": 5, "x": 1}, ["x"], [1, 5]]'),
+]
+
+
 def main(chk):
     ok, broken = obligations(chk, "Props/C09.v")
     rng = chk.rng
@@ -196,6 +277,18 @@ def main(chk):
             for _ in range(4):
                 cases.append(("obj", gen_obj_case(rng, npairs, nun)))
                 cases.append(("map", gen_map_case(rng, npairs, nun)))
+    # the same key met in the literal and in one, two, three `**` items, for every key kind (seed-independent)
+    shapes = ["LM", "MM", "MMM", "MNM", "NMM", "LMM", "LNM", "LMNM"]   # the grammar wants pairs before `**` items
+    for i, k in enumerate(MAP_KEYS):
+        k2 = MAP_KEYS[(i + 7) % len(MAP_KEYS)]
+        for sh in shapes:
+            cases.append(("map", dup_map_case(sh, k, k2)))
+    for i, k in enumerate(OBJ_NAMES):
+        k2 = OBJ_NAMES[(i + 3) % len(OBJ_NAMES)]
+        for sh in shapes:
+            cases.append(("obj", dup_obj_case(sh, k, k2)))
+    for pre, q, exp in ALIAS_CASES:
+        cases.append(("alias", (pre.rstrip("\n"), [(q, exp)])))
     rng.setstate(st0)
     for _ in range(40 if chk.tier == "quick" else 800):
         cases.append(("obj", gen_obj_case(rng, rng.randint(0, 10), rng.randint(0, 3))))
